@@ -306,22 +306,12 @@ IOpQ(op, o, rhs, q) ==
                  Write(b, c, i) == IF c > nc THEN b
                                    ELSE IF i > nr THEN Write(b, c + 1, 1)
                                    ELSE Write([b EXCEPT ![heap[o].comps[c].buf][heap[o].comps[c].idx[i]] = newval(c, i)], c, i + 1)
-             IN /\ IF IsArr(o)
-                   THEN /\ bufs' = Write(bufs, 1, 1)
-                        /\ heap' = [heap EXCEPT ![o].unit = ResUnit(op, o, rhs)]
-                        /\ res' = ObjRes(o)                                          \* the same object
-                   ELSE \* a Vector: the component Arrays are updated in place, the call returns a new Vector
-                        \* wrapping the same component buffers (0-d components are copied by the constructor)
-                        /\ NextOid <= MaxObj
-                        /\ IF heap[o].scalar
-                           THEN /\ heap' = Append([heap EXCEPT ![o].unit = ResUnit(op, o, rhs)],
-                                                  [heap[o] EXCEPT !.unit = ResUnit(op, o, rhs), !.name = "",
-                                                                  !.comps = [c \in 1..nc |-> [buf |-> Len(bufs) + c, idx |-> <<1>>]]])
-                                /\ bufs' = Write(bufs, 1, 1) \o [c \in 1..nc |-> <<newval(c, 1)>>]
-                           ELSE /\ heap' = Append([heap EXCEPT ![o].unit = ResUnit(op, o, rhs)],
-                                                  [heap[o] EXCEPT !.unit = ResUnit(op, o, rhs), !.name = ""])
-                                /\ bufs' = Write(bufs, 1, 1)
-                        /\ res' = ObjRes(NextOid)
+             IN \* x is updated where it is and stays the same object - an Array and a Vector alike.  (A Vector answering with a
+                \* NEW Vector over the same component buffers satisfies the statement for one update only: the next update
+                \* through the new object changes the shared values but not the unit held by the references to the old one.)
+                /\ bufs' = Write(bufs, 1, 1)
+                /\ heap' = [heap EXCEPT ![o].unit = ResUnit(op, o, rhs)]
+                /\ res' = ObjRes(o)
 \* a Vector component update happens component after component; when the right-hand side aliases a later
 \* component of x the result would depend on that order - such operand pairs are not in the pool.
 IOpArgsOk(o, rhs) == IF rhs = 0 \/ rhs = o \/ IsArr(o) THEN TRUE ELSE ~Shares(o, rhs)
@@ -468,7 +458,7 @@ NameIsKey == [][(act'.op = "set" /\ res'.t = "none") => heap'[act'.o].name = act
 DsNameParent == [][(act'.op = "dsset") => dgs'[act'.g].name = act'.k /\ dgs'[act'.g].parent = act'.d]_vars
 \* C17: an Array updated in place is the same object over the same buffer cells; objects sharing no cell with it keep their values
 InPlaceSameObject ==
-  [][(act'.op = "iop" /\ res'.t = "obj" /\ heap[act'.o].kind = "arr") => res'.o = act'.o /\ heap'[act'.o].comps = heap[act'.o].comps]_vars
+  [][(act'.op = "iop" /\ res'.t = "obj") => res'.o = act'.o /\ heap'[act'.o].comps = heap[act'.o].comps /\ Len(heap') = Len(heap)]_vars
 InPlaceFrame ==
   [][(act'.op = "iop" /\ res'.t = "obj") =>
        \A p \in Os \ {act'.o} : ~Shares(p, act'.o) => (\A c \in 1..NComp(p) : CVals(heap', bufs', p, c) = Vals(p, c)) /\ heap'[p].unit = heap[p].unit]_vars
